@@ -105,7 +105,9 @@ def h2_expect(segments: List[bytes]) -> Optional[str]:
 
     A server that has answered has streams that are *more* closed and send windows that are *smaller* than the
     reference's, so everything the reference rejects the real connection rejects as well (used in that direction
-    only: reference error => the server must have ended the connection)."""
+    only: reference error => the server must have ended the connection).  Exception: the concurrency limit - requests
+    the real server has long answered still count as open here; callers that send more than 100 complete requests
+    (mixed floods) hand in the segments without them."""
     conn = ref_server()
     for seg in segments:
         try:
@@ -145,6 +147,7 @@ class H2FrameView:
         self._block: Optional[Tuple[int, int, bytearray]] = None  # (sid, flags of the HEADERS frame, fragment)
         self.settings_acks = 0
         self.ping_acks = 0
+        self.skipped: List[tuple] = []  # (parse-only: never refuses a command; read by harness.describe)
 
     def stream(self, sid: int) -> dict:
         if sid not in self.streams:
@@ -254,7 +257,7 @@ class RawClient(Client):
         if self.h2 is not None:
             self.h2 = H2FrameView()  # type: ignore[assignment]
             for sid in opts.get("ws_streams", ()):
-                self.h2.ws[sid] = WSParser()
+                self.h2.ws[sid] = WSParser(deflate=opts.get("deflate", False))
             if self.h1 is not None and self.carrier == "h2c":
                 self.h1.on_switch_data = self.h2.feed
 
